@@ -95,12 +95,16 @@ Qed.
 Lemma xinv_install s f t l K L0 tc k M c :
   inv V0 s -> dinv s -> f <> l -> cur (st s f) <= t -> In (t, l, L0) (elected s) ->
   In (tc, k, M) (cmts s) -> tc <= t -> (length K <= k)%nat -> K = firstn (length K) M ->
-  (commit (st s f) <= c <= Nat.max (commit (st s f)) (length K))%nat ->
+  (c <= Nat.max (commit (st s f)) (length K))%nat ->
   xinv (do_install f t l K c s).
 Proof.
   intros I D Hfl Hcur He Hc Htc Hk HKM Hcc.
   destruct (install_lineage s t l L0 tc k M K I D He Hc Htc Hk HKM) as [K0 [HK0 [HlK0 HX']]].
   unfold do_install. cbv zeta.
+  set (c' := Nat.max (commit (st s f)) c).
+  assert (Hcc' : (commit (st s f) <= c' <= Nat.max (commit (st s f)) (length K))%nat)
+    by (unfold c'; lia).
+  clearbody c'. clear Hcc c. rename c' into c. rename Hcc' into Hcc.
   set (lg' := if lprefixb K (log (st s f)) then log (st s f) else K).
   set (fl' := if lprefixb K (log (st s f)) then Nat.max (flushed (st s f)) (length K) else length K).
   assert (Hcase : (lg' = log (st s f) /\ prefix K (log (st s f))) \/
